@@ -8,6 +8,11 @@ Follows `samply-api/src/source/mod.rs:53-101` (`SourceApi::query_api`), branch b
 * `samply-symbols/src/lib.rs:283-302`            (`SymbolManager::load_source_file`)
 * `samply-api/src/symbolicate/mod.rs:229-251`    (the `file` / `inlines[].file` part of `create_response`;
                                                    the full `/symbolicate/v5` model is C07's)
+* `samply-symbols/src/lib.rs:304-362`            (`SymbolManager::load_symbol_map`: helper-supplied map, candidate loop)
+* `samply-api/src/symbolicate/mod.rs:69-130`     (one symbol map for a batch of addresses)
+* `samply-api/src/hex.rs:23-37`                  (`from_prefixed_hex_str`: the `moduleOffset` string)
+* `samply-symbols/src/symbol_map.rs:122-229`     (`SymbolMap::lookup` and `lookup_external`: the two external-file loops)
+* `wholesym/src/helper.rs:92-125`                (`WholesymFileLocation::location_for_source_file`)
 
 What `SymbolManager::load_symbol_map` + `SymbolMap::lookup` yield for the request's
 `(debugName, debugId, moduleOffset)` is an oracle (`Lookup`); the helper's
@@ -164,8 +169,8 @@ def Outcome.accepted : Outcome → Bool
   | .err _ => false
 
 def specOk {Loc : Type} [DecidableEq Loc] (pairs : List (String × String)) (reported : List String)
-    (locationFor : String → Option Loc) (wellFormed : Bool) (requested : String) (res : Result Loc) :
-    Bool :=
+    (locationFor : String → Option Loc) (fileLen : Loc → Option Nat) (wellFormed : Bool)
+    (requested : String) (res : Result Loc) : Bool :=
   -- at most one source file is read
   decide (res.loads.length ≤ 1)
   -- a read happens only for a well-formed request whose path is exactly a reported one, and what is read is
@@ -176,10 +181,256 @@ def specOk {Loc : Type} [DecidableEq Loc] (pairs : List (String × String)) (rep
   -- a refusal reads nothing
   && (res.outcome.accepted || res.loads.isEmpty)
   -- every reported path is accepted
-  && (!(wellFormed && reported.contains requested) ||
-      (res.outcome.accepted && (!res.loads.isEmpty || res.outcome == .err .refusedLocation)))
+  && (!(wellFormed && reported.contains requested) || res.outcome.accepted)
+  -- the response class of an acceptance is justified by the helper: `ok n` returns the content of the one
+  -- location read; an open-file error only if that location cannot be read; a refused location only if the
+  -- helper makes no location for the raw path of a frame with the requested spelling (and nothing is read)
+  && (match res.outcome with
+      | .ok n => (match res.loads with
+                  | [l] => fileLen l == some n
+                  | _ => false)
+      | .err .openFile => (match res.loads with
+                  | [l] => fileLen l == none
+                  | _ => false)
+      | .err .refusedLocation =>
+          res.loads.isEmpty && pairs.any (fun p => p.2 == requested && (locationFor p.1).isNone)
+      | .err _ => true)
 
 def pairsOf (apiPath : SourceFilePath → String) (fs : List Frame) : List (String × String) :=
   (filePaths fs).map (fun fp => (fp.rawPath, apiPath fp))
+
+/-! ## Which symbol map a request sees: `SymbolManager::load_symbol_map`, `samply-symbols/src/lib.rs:304-362`
+
+`DL` is the helper's `FileLocation` type as far as debug files are concerned. The receiver of
+`location_for_source_file` (lib.rs:288-290) is `symbol_map.debug_file_location()` (source/mod.rs:73) of the
+symbol map `load_symbol_map` returned. -/
+
+/-- A symbol map obtained from one candidate (`load_symbol_map_from_location`, lib.rs:334-339) or supplied by
+the helper: its `debug_id()`, its `debug_file_location()` and what `lookup(Relative(offset))` followed by
+`.and_then(|ai| ai.frames)` gives for every offset. -/
+structure Loaded (DL : Type) where
+  id : String
+  dfl : DL
+  lookup : Nat → Lookup
+
+/-- Result of loading one candidate of `get_candidate_paths_for_debug_file`. -/
+inductive CandResult (DL : Type) where
+  | err                      -- lib.rs:357-359 `Err(e) => all_errors.push(e)`
+  | ok (l : Loaded DL)       -- lib.rs:352-356: compared with the requested debug id
+
+/-- The symbol manager with its helper. `SymbolManager` holds nothing but the helper (lib.rs:262-264):
+there is no state that survives a request. -/
+structure Manager (DL Loc : Type) where
+  /-- `helper.get_symbol_map_for_library(info)` (lib.rs:306-312): used as is, no id comparison by samply -/
+  direct : Option (Loaded DL)
+  /-- the candidates in the helper's order (lib.rs:319-327), each loaded (lib.rs:331-349) -/
+  cands : List (CandResult DL)
+  /-- `debug_file_location.location_for_source_file(raw_path)` -/
+  locationFor : DL → String → Option Loc
+  fileLen : Loc → Option Nat
+
+/-- lib.rs:351-360: a candidate is returned iff it loaded and `symbol_map.debug_id() == debug_id`. -/
+def candMatch {DL : Type} (id : String) : CandResult DL → Option (Loaded DL)
+  | .ok l => if l.id == id then some l else none
+  | .err => none
+
+/-- `SymbolManager::load_symbol_map`, lib.rs:304-368; `none` = `Err(..)`. -/
+def loadSymbolMap {DL Loc : Type} (m : Manager DL Loc) (id : String) : Option (Loaded DL) :=
+  match m.direct with
+  | some l => some l                        -- lib.rs:306-312
+  | none => m.cands.findSome? (candMatch id)  -- lib.rs:331-361: the first matching candidate wins
+
+/-- A `/source/v1` request with its library and offset. -/
+structure OffsetRequest where
+  parsed : Bool
+  /-- `to_debug_id(debug_id)` (mod.rs:63): `none` = `Err` -/
+  debugId : Option String
+  offset : Nat
+  file : String
+
+/-- What the request flow sees of the manager: mod.rs:72 (`load_symbol_map`), :73 (`debug_file_location`),
+:74-79 (`lookup` of the request's offset). -/
+def envOf {DL Loc : Type} (m : Manager DL Loc) (id : Option String) (offset : Nat) : Env Loc :=
+  match id.bind (loadSymbolMap m) with
+  | none => ⟨.noSymbols, fun _ => none, m.fileLen⟩
+  | some l => ⟨l.lookup offset, m.locationFor l.dfl, m.fileLen⟩
+
+/-! ### The request body: `moduleOffset` is a `0x`-prefixed hex string (`samply-api/src/hex.rs:23-37`) -/
+
+/-- one digit of `u32::from_str_radix(_, 16)` -/
+def hexDigitVal (c : Char) : Option Nat :=
+  if '0' ≤ c ∧ c ≤ '9' then some (c.toNat - '0'.toNat)
+  else if 'a' ≤ c ∧ c ≤ 'f' then some (c.toNat - 'a'.toNat + 10)
+  else if 'A' ≤ c ∧ c ≤ 'F' then some (c.toNat - 'A'.toNat + 10)
+  else none
+
+/-- the digits of `u32::from_str_radix(_, 16)`: at least one, hex digits of either case, value below `2^32` -/
+def hexDigitsU32 (ds : List Char) : Option Nat :=
+  match ds with
+  | [] => none
+  | _ =>
+    match ds.mapM hexDigitVal with
+    | none => none
+    | some vs =>
+      let n := vs.foldl (fun a d => a * 16 + d) 0
+      if n < 4294967296 then some n else none
+
+/-- `u32::from_str_radix(s, 16)`: one optional leading `+` (not alone; no `-` for an unsigned type) -/
+def fromStrRadix16U32 (s : List Char) : Option Nat :=
+  match s with
+  | '+' :: d :: more => hexDigitsU32 (d :: more)
+  | _ => hexDigitsU32 s
+
+/-- `from_prefixed_hex_str`: `strip_prefix("0x")` (hex.rs:29-35), then `u32::from_str_radix(s, 16)` (hex.rs:36).
+`none` = the deserialisation error that makes the whole body fail to parse (mod.rs:49). -/
+def parseModuleOffset (cs : List Char) : Option Nat :=
+  match cs with
+  | '0' :: 'x' :: rest => fromStrRadix16U32 rest
+  | _ => none
+
+/-- A request body field by field. -/
+structure RawRequest where
+  /-- the body is a JSON object with string members `debugName`, `debugId`, `moduleOffset`, `file` -/
+  wellFormedJson : Bool
+  offsetStr : List Char
+  /-- `to_debug_id(debug_id)` (lib.rs:161-169): `none` = not a breakpad id, or the nil id -/
+  debugId : Option String
+  file : String
+
+def RawRequest.toOffsetRequest (r : RawRequest) : OffsetRequest :=
+  match parseModuleOffset r.offsetStr with
+  | none => ⟨false, r.debugId, 0, r.file⟩
+  | some o => ⟨r.wellFormedJson, r.debugId, o, r.file⟩
+
+/-- `/source/v1` for `(library, offset, file)` on a manager. -/
+def sourceApiAt {DL Loc : Type} (apiPath : SourceFilePath → String) (m : Manager DL Loc)
+    (rq : OffsetRequest) : Result Loc :=
+  sourceApi apiPath (envOf m rq.debugId rq.offset) ⟨rq.parsed, rq.debugId.isSome, rq.file⟩
+
+/-- A sequence of requests served by one manager: every request starts from `load_symbol_map` again
+(mod.rs:72) and the manager keeps no state (lib.rs:262-264). -/
+def serve {DL Loc : Type} (apiPath : SourceFilePath → String) (m : Manager DL Loc)
+    (rqs : List OffsetRequest) : List (Result Loc) :=
+  rqs.map (sourceApiAt apiPath m)
+
+/-! ## `/symbolicate/v5` for a batch of addresses of one library
+
+`symbolicate_requested_addresses_for_lib`, symbolicate/mod.rs:69-130 (one `load_symbol_map` for the whole
+batch, addresses sorted and de-duplicated, `lookup_sync` + `lookup_external` per address) and
+`response_frame_for_request_frame`, :215-259. The per-address frames are the same oracle `Loaded.lookup`
+the `/source/v1` side uses: that `lookup_sync` + `lookup_external` on a symbol map shared by the batch and
+`SymbolMap::lookup` on a fresh one agree is an assumption of the model, compared in every generated case
+(the driver prints what this definition reports, the harness what a real batched request reports). -/
+
+inductive SymEntry where
+  | noDebugInfo                       -- no symbol map, no symbol, or no frames: no `debug_info` member
+  | panic                             -- the `expect` at symbolicate/mod.rs:235-237 on an empty frame list
+  | info (r : ReportedDebugInfo)
+  deriving DecidableEq, Repr
+
+def symEntry (apiPath : SourceFilePath → String) : Lookup → SymEntry
+  | .frames fs =>
+    match reportDebugInfo apiPath fs with
+    | none => .panic
+    | some r => .info r
+  | _ => .noDebugInfo
+
+def symbolicateAt {DL Loc : Type} (apiPath : SourceFilePath → String) (m : Manager DL Loc)
+    (id : Option String) (addr : Nat) : SymEntry :=
+  match id.bind (loadSymbolMap m) with
+  | none => .noDebugInfo
+  | some l => symEntry apiPath (l.lookup addr)
+
+/-- the response entries for the requested addresses, in request order -/
+def symbolicate {DL Loc : Type} (apiPath : SourceFilePath → String) (m : Manager DL Loc)
+    (id : Option String) (addrs : List Nat) : List (Nat × SymEntry) :=
+  addrs.map (fun a => (a, symbolicateAt apiPath m id a))
+
+def SymEntry.files : SymEntry → List String
+  | .info r => r.files
+  | _ => []
+
+/-! ## The location policy of wholesym's helper, `wholesym/src/helper.rs:92-125`
+
+`WholesymFileLocation::location_for_source_file`. The path operations of `std::path` are parameters. -/
+
+inductive WLoc where
+  | localFile (path : String)          -- `LocalFile`
+  | url (u : String)                   -- `UrlForSourceFile`
+  | remote                             -- every other variant (symbol server, debuginfod, breakpad server, vdso)
+  deriving DecidableEq, Repr
+
+structure PathOps where
+  isAbsolute : String → Bool           -- `Path::is_absolute`
+  parent : String → Option String      -- `Path::parent`
+  join : String → String → String      -- `Path::join`
+
+def wholesymLocationFor (ops : PathOps) : WLoc → String → Option WLoc
+  | .localFile dbg, p =>
+    if p.startsWith "https://" || p.startsWith "http://" then some (.url p)       -- helper.rs:95-108
+    else if ops.isAbsolute p then some (.localFile p)                              -- helper.rs:110-111
+    else (ops.parent dbg).map (fun b => .localFile (ops.join b p))                 -- helper.rs:112-117
+  | _, _ => none                                                                   -- helper.rs:119-127
+
+/-! ## The two ways to the frames of an address
+
+`/source/v1` uses `SymbolMap::lookup` (`samply-symbols/src/symbol_map.rs:122-182`) on a fresh symbol map;
+`/symbolicate/v5` uses `lookup_sync` and, for frames that live in an external file (dwo, Mach-O object),
+`SymbolMap::lookup_external` (`symbol_map.rs:190-229`) on a symbol map shared by the whole batch, whose inner map
+caches the most recently used external file (`try_lookup_external`). `X` = `ExternalFileAddressRef`,
+`C` = the contents of an auxiliary file. -/
+
+/-- `FramesLookupResult` -/
+inductive FLR (X : Type) where
+  | available (fs : List Frame)
+  | external (x : X)
+
+/-- The inner symbol map and the helper as far as the two loops use them. -/
+structure InnerMap (X C : Type) where
+  /-- `lookup_sync(address)`: `none` = no symbol, `some none` = a symbol without debug info -/
+  lookupSync : Nat → Option (Option (FLR X))
+  /-- `InnerSymbolMap::WithAddFile` (external files can be added) -/
+  withAddFile : Bool
+  /-- `self.helper` is present -/
+  hasHelper : Bool
+  /-- `location_for_external_object_file` / `location_for_dwo` of the debug file's location, then
+  `helper.load_file(location).await.ok()` (symbol_map.rs:146-160 and :211-223): `none` = no location or load error -/
+  loadAux : X → Option C
+  /-- `try_lookup_external_with_file_contents(&external, file_contents)` -/
+  tryWithFile : X → Option C → Option (FLR X)
+  /-- `try_lookup_external(external)` (symbol_map.rs:199): answered from the cached external file -/
+  tryCached : X → Option (FLR X)
+
+/-- The body shared by both `loop`s: as long as the result refers to a further external file, load it and ask
+again. The code's `loop` has no bound; `fuel` bounds the number of external files loaded, `none` = not finished
+within `fuel` loads. `some none` = no debug info. -/
+def resolveExternal {X C : Type} (im : InnerMap X C) : Nat → Option (FLR X) → Option (Option (List Frame))
+  | _, some (.available fs) => some (some fs)
+  | _, none => some none
+  | 0, some (.external _) => none
+  | n + 1, some (.external x) => resolveExternal im n (im.tryWithFile x (im.loadAux x))
+
+/-- `SymbolMap::lookup(address).and_then(|ai| ai.frames)`, symbol_map.rs:122-182 -/
+def lookupFresh {X C : Type} (im : InnerMap X C) (fuel : Nat) (a : Nat) : Option (Option (List Frame)) :=
+  match im.lookupSync a with
+  | none => some none                                       -- :123 `?`
+  | some none => some none                                  -- :132-137
+  | some (some (.available fs)) => some (some fs)           -- :126-131
+  | some (some (.external x)) =>
+    if !im.withAddFile then some none                       -- :132-137
+    else if !im.hasHelper then some none                    -- :142 `?`
+    else resolveExternal im fuel (some (.external x))       -- :143-181
+
+/-- What `/symbolicate/v5` records for an address: `lookup_sync` (symbolicate/mod.rs:97-116), then
+`lookup_external` for external references (symbolicate/mod.rs:124-128, symbol_map.rs:190-229) -/
+def lookupBatch {X C : Type} (im : InnerMap X C) (fuel : Nat) (a : Nat) : Option (Option (List Frame)) :=
+  match im.lookupSync a with
+  | none => some none
+  | some none => some none
+  | some (some (.available fs)) => some (some fs)
+  | some (some (.external x)) =>
+    if !im.hasHelper then some none                         -- symbol_map.rs:194 `?`
+    else if !im.withAddFile then some none                  -- :195-198
+    else resolveExternal im fuel (im.tryCached x)           -- :199-228
 
 end SourceApi
